@@ -9,9 +9,11 @@ import fractions
 import itertools
 import time
 
+import numpy as _np
 import z3
 
 Fraction = fractions.Fraction
+EXACT_NUMERALS = False
 
 
 class PathAbort(BaseException):
@@ -690,7 +692,10 @@ def mk(e):
     if z3.is_int_value(e):
         return e.as_long()
     if z3.is_rational_value(e):
-        return Fraction(e.numerator_as_long(), e.denominator_as_long())
+        # a real-sorted numeral: hand back a numpy double, which is what the real code would hold here (so that e.g.
+        # division by a zero norm gives nan as in numpy instead of raising as Fraction would)
+        return _np.float64(e.numerator_as_long() / e.denominator_as_long()) if EXACT_NUMERALS is False else \
+            Fraction(e.numerator_as_long(), e.denominator_as_long())
     return Sym(e)
 
 
